@@ -97,8 +97,32 @@ def impl_serialize(fmt, ref_text, old_text, new_items, want_views=True):
         # facts for the root-cause predicates of findings
         res["ref_noval"] = [e.key for e in ref if isinstance(e, Entity) and fmt in ("inc",) and e.val_span[0] < 0]
         res["old_last"] = kind_letter(old[-1]) if old else ""
-    out = serialize(name, ref, old, new)
+        # white-space entries directly before / after each Junk entry of the old file (root cause of C16-old-junk-blanks-kept)
+        def ws_at(j):
+            if 0 <= j < len(old) and isinstance(old[j], Whitespace) and fmt != "android":
+                return [old[j].all, old[j].span[0]]
+            return None
+        res["old_junk_ws"] = [[ws_at(i - 1), ws_at(i + 1)] for i, e in enumerate(old) if isinstance(e, Junk)]
+    if want_views and fmt == "ftl":
+        res["ref_body"] = ftl_body(ref_text)
+        res["old_body"] = ftl_body(old_text)
+    if want_views and fmt == "android":
+        res["ref_recs"] = android_recs(ref)
+        res["old_recs"] = android_recs(old)
+        res["ref_markup"] = markup_keys(ref)
+        res["ref_root"] = root_attrs(ref_text)
+    try:
+        out = serialize(name, ref, old, new)
+    except Exception as x:
+        if want_views and fmt == "android":
+            import traceback, os
+            tb = traceback.extract_tb(x.__traceback__)
+            return {"exc_inner": type(x).__name__, "msg": str(x)[:300], "ref_recs": res["ref_recs"], "old_recs": res["old_recs"],
+                    "where": ["%s:%s:%s" % (os.path.basename(f.filename), f.lineno, f.name) for f in tb[-3:]]}
+        raise
     text = out.decode("utf-8")
+    if want_views and fmt == "android":
+        res["out_root"] = root_attrs(text)
     res["out"] = text
     if want_views:
         reparsed = walk(fmt, text)
@@ -109,6 +133,148 @@ def impl_serialize(fmt, ref_text, old_text, new_items, want_views=True):
         if fmt == "ftl":
             res["new_values"] = [[k, None if v is None else ftl_value(v)] for k, v in new_items]
     return res
+
+
+# ------------------------------------------------------------------ round 4: inputs of the Fluent / Android models
+def ftl_body(text):
+    """what fluent.syntax returns for `text`, as the model's input: [kind, s, e, ks, ke, vs, ve, comment content or None]
+    (kinds/spans as FluentEntity.__init__ derives them; the comment content is what wrap / FluentComment read)"""
+    from fluent.syntax import FluentParser as FTLParser, ast as ftl
+    body = []
+    for entry in FTLParser().parse(text).body:
+        s, e = entry.span.start, entry.span.end
+        ks = ke = vs = ve = -1
+        c = None
+        if isinstance(entry, ftl.Term):
+            k, ks, ke = "T", entry.id.span.start - 1, entry.id.span.end
+        elif isinstance(entry, ftl.Message):
+            k, ks, ke = "M", entry.id.span.start, entry.id.span.end
+        elif isinstance(entry, ftl.Junk):
+            k = "J"
+        elif isinstance(entry, ftl.BaseComment):
+            k, c = "C", entry.content
+        else:
+            k = "O"
+        if k in "MT":
+            if entry.value is not None:
+                vs, ve = entry.value.span.start, entry.value.span.end
+            if entry.comment is not None:
+                c = entry.comment.content
+        body.append([k, s, e, ks, ke, vs, ve, c])
+    return body
+
+
+def xml_children(node):
+    from xml.dom.minidom import Node
+    out = []
+    for ch in node.childNodes:
+        if ch.nodeType == Node.TEXT_NODE:
+            out.append(["T", ch.data, ""])
+        elif ch.nodeType == Node.CDATA_SECTION_NODE:
+            out.append(["D", ch.data, ""])
+        elif ch.nodeType == Node.COMMENT_NODE:
+            out.append(["M", ch.data, ""])
+        elif ch.nodeType == Node.PROCESSING_INSTRUCTION_NODE:
+            out.append(["P", ch.data, ch.target])
+        else:
+            out.append(["X", "", ch.toxml()])
+    return out
+
+
+def elem_summary(node):
+    """[open tag text, tag name, children] of a minidom element (the input of the model of AndroidEntity.wrap)"""
+    shallow = node.cloneNode(False).toxml()
+    assert shallow.endswith("/>")
+    return [shallow[:-2], node.tagName, xml_children(node)]
+
+
+def android_recs(entries):
+    from compare_locales.parser.android import AndroidEntity, DocumentWrapper, XMLWhitespace, XMLComment, XMLJunk
+    recs = []
+    for e in entries:
+        if isinstance(e, AndroidEntity):
+            pre = (e.pre_comment.all if e.pre_comment is not None else "") + (e.inner_white.all if e.inner_white is not None else "")
+            recs.append(["A", e.key, pre, e.all] + elem_summary(e.node))
+        elif isinstance(e, DocumentWrapper):
+            recs.append(["S", e.key, e.all])
+        elif isinstance(e, XMLComment):
+            recs.append(["C", e.all, e.val])
+        elif isinstance(e, XMLJunk):
+            recs.append(["J", e.all])
+        elif isinstance(e, XMLWhitespace):
+            recs.append(["W", e.all])
+        else:
+            raise ValueError(type(e).__name__)
+    return recs
+
+
+def markup_keys(entries):
+    """keys of the <string> entities whose element is NOT `optional white-space, one Text/CDATA node, optional white-space`:
+    wrap replaces the data of ONE child, so other children (inline markup, further text) stay (finding C16-android-reference-markup)"""
+    from compare_locales.parser.android import AndroidEntity
+    from xml.dom.minidom import Node
+    keys = []
+    for e in entries:
+        if not isinstance(e, AndroidEntity):
+            continue
+        ch = list(e.node.childNodes)
+        if len(ch) <= 1:
+            if ch and ch[0].nodeType not in (Node.TEXT_NODE, Node.CDATA_SECTION_NODE):
+                keys.append(e.key)
+            continue
+        cd = [c for c in ch if c.nodeType == Node.CDATA_SECTION_NODE]
+        target = cd[0] if cd else ch[-1]
+        rest = [c for c in ch if c is not target]
+        if target.nodeType not in (Node.TEXT_NODE, Node.CDATA_SECTION_NODE) or \
+                any(not (c.nodeType == Node.TEXT_NODE and not c.data.strip()) for c in rest):
+            keys.append(e.key)
+    return keys
+
+
+def root_attrs(text):
+    """attributes of the document element, read with minidom directly (independent of AndroidParser)"""
+    from xml.dom import minidom
+    try:
+        doc = minidom.parseString(text.encode("utf-8"))
+    except Exception:
+        return None
+    return sorted([k, v] for k, v in doc.documentElement.attributes.items())
+
+
+def impl_android_wrap(file_text, key, raw):
+    """AndroidEntity.wrap on the entity `key` of `file_text`: the element summary and the wrapped entity's text"""
+    from compare_locales.parser.android import AndroidEntity
+    for e in walk("android", file_text):
+        if isinstance(e, AndroidEntity) and e.key == key:
+            pre = (e.pre_comment.all if e.pre_comment is not None else "") + (e.inner_white.all if e.inner_white is not None else "")
+            res = {"key": key, "pre": pre, "el": elem_summary(e.node)}
+            try:
+                w = e.wrap(raw)
+                res["all"] = w.all
+                res["wkey"] = w.key
+                res["wraw"] = w.raw_val
+            except Exception as x:
+                res["wexc"] = type(x).__name__
+            return res
+    return None
+
+
+def impl_ftl_comment(content):
+    from fluent.syntax import ast as ftl
+    from fluent.syntax.serializer import serialize_comment
+    return serialize_comment(ftl.Comment(content))
+
+
+def impl_unsupported(name):
+    """serialize with a file name no parser claims"""
+    from compare_locales.serializer import SerializationNotSupportedError
+    try:
+        serialize(name, [], [], {})
+    except SerializationNotSupportedError as x:
+        return "SerializationNotSupportedError:" + str(x)
+    except Exception as x:
+        return "other:" + type(x).__name__
+    return "no exception"
 
 
 def impl_serialize_text(fmt, ref_text, old_text, new_items):
